@@ -124,6 +124,8 @@ def draw_config(ds) -> dict:
     c["seed"] = [ds.pick(SEEDVALS, f"cfg.seed[{k}]") for k in range(nrep)]
     c["pfail"] = ds.pick(PFAIL, "cfg.fault_rate")
     c["bursty"] = ds.choose(2, "cfg.bursty")
+    c["reuse_backend"] = ds.choose(2, "cfg.reuse_backend_after_prior_run", (0.8, 0.2))
+    c["prior_outcomes"] = [ds.choose(3, f"cfg.prior.corrector[{k}]", (0.6, 0.25, 0.15)) for k in range(4)] if c["reuse_backend"] else []
     return c
 
 
@@ -202,6 +204,25 @@ def run_protocol(ctx: RunCtx, c: dict) -> None:
     else:
         backend = _B(stepper_factory=_mk_sec(), support_factory=_Support)
         sfn = lambda v: np.asarray(v, float)  # representation function
+    if c.get("reuse_backend"):
+        # the same backend instance has already produced another family (other seed, opposite step, a few failures):
+        # this run is judged as if it were the first -- nothing may survive from the previous one
+        ctx.probe("backend_reused")
+        it = iter(c["prior_outcomes"])
+
+        def prior_corrector(pp):
+            o = next(it, 0)
+            if o == 2:
+                raise RuntimeError("injected: prior run failure")
+            pp = np.asarray(pp, float)
+            return pp + 0.013, 1e-13, o == 0, {"period": 2.0}
+
+        try:
+            backend.run(request=_R(seed_repr=seedv + 0.37, stepper_fn=sfn, predictor_fn=predictor, parameter_getter=getter, corrector=prior_corrector,
+                                   step=-step0, target=np.array([tmin - 50.0, tmax + 50.0]), max_members=4, max_retries_per_step=1,
+                                   shrink_policy=_policy(1), step_min=c["smin"], step_max=c["smax"], metadata={}))
+        except Exception:
+            pass
     req = _R(seed_repr=seedv.copy(), stepper_fn=sfn, predictor_fn=predictor, parameter_getter=getter, corrector=corrector,
              step=step0.copy(), target=np.array([tmin, tmax]), max_members=c["M"], max_retries_per_step=c["R"],
              shrink_policy=policy, step_min=c["smin"], step_max=c["smax"], metadata={})
